@@ -1272,3 +1272,92 @@ _CLAIM_HELPER = """    def _take_claims(self, txn, stage, message) -> None:
 """
 for _p in ("C04", "C11", "C01"):
     case(f"{_p.lower()}-refactor-claims-helper", _p, "refactor", [(H + "start_stage/handler.py", _CLAIM_OLD, _CLAIM_NEW), (H + "start_stage/handler.py", "    def _start_if_ready(\n", _CLAIM_HELPER)])
+
+# ------------------------------------------------------------------ round-3 rules: C05.R11/R12, C07 insert/decision-read/snapshot, C18.R6
+_OBI_OLD = """        for stage in stages:
+            # A SUSPENDED or PAUSED stage is parked, not finished: it resumes on
+            # its signal / on resume, so the workflow must not be finalized yet.
+            if stage.status in (
+                WorkflowStatus.RUNNING,
+                WorkflowStatus.SUSPENDED,
+                WorkflowStatus.PAUSED,
+            ):
+                return True
+            if stage.status == WorkflowStatus.NOT_STARTED and stage.all_upstream_stages_complete():
+                return True
+        return False
+"""
+case("c05-refactor-incomplete-any", "C05", "refactor", [(H + "complete_workflow.py", _OBI_OLD, """        parked = {WorkflowStatus.RUNNING, WorkflowStatus.SUSPENDED, WorkflowStatus.PAUSED}
+        return any(
+            st.status in parked or (st.status == WorkflowStatus.NOT_STARTED and st.all_upstream_stages_complete())
+            for st in stages
+        )
+""")])
+case("c05-refactor-incomplete-continue", "C05", "refactor", [(H + "complete_workflow.py", _OBI_OLD, """        for stage in stages:
+            if stage.status.is_complete:
+                continue
+            if stage.status != WorkflowStatus.NOT_STARTED and stage.status in ACTIVE_STATUSES:
+                return True
+            if stage.status == WorkflowStatus.NOT_STARTED and stage.all_upstream_stages_complete():
+                return True
+        return False
+"""), (H + "complete_workflow.py", "from stabilize.models.status import CONTINUABLE_STATUSES, WorkflowStatus", "from stabilize.models.status import ACTIVE_STATUSES, CONTINUABLE_STATUSES, WorkflowStatus")])
+case("c05-incomplete-drops-suspended", "C05", "mutant", [(H + "complete_workflow.py", """                WorkflowStatus.SUSPENDED,
+                WorkflowStatus.PAUSED,
+            ):
+                return True
+            if stage.status == WorkflowStatus.NOT_STARTED""", """                WorkflowStatus.PAUSED,
+            ):
+                return True
+            if stage.status == WorkflowStatus.NOT_STARTED""")], "C05.R11")
+case("c05-incomplete-counts-finished", "C05", "mutant", [(H + "complete_workflow.py", """            if stage.status == WorkflowStatus.NOT_STARTED and stage.all_upstream_stages_complete():
+                return True
+        return False""", """            if stage.status == WorkflowStatus.NOT_STARTED and stage.all_upstream_stages_complete():
+                return True
+            if stage.status == WorkflowStatus.CANCELED:
+                return True
+        return False""")], "C05.R11")
+_GATE_OLD = """                            if all_core and all(
+                                s
+                                in {
+                                    WorkflowStatus.SUCCEEDED,
+                                    WorkflowStatus.SKIPPED,
+                                    WorkflowStatus.FAILED_CONTINUE,
+                                }
+                                for s in all_core
+                            ):
+"""
+case("c05-refactor-gate-props", "C05", "refactor", [(H + "complete_stage/handler.py", _GATE_OLD, """                            if all_core and all(cs.is_complete and not cs.is_halt for cs in all_core):
+""")])
+case("c05-gate-accepts-running", "C05", "mutant", [(H + "complete_stage/handler.py", _GATE_OLD, """                            if all_core and all(not cs.is_halt for cs in all_core):
+""")], "C05.R12")
+case("c07-insert-stage-or-replace", "C07", "mutant", [("src/stabilize/persistence/sqlite/helpers.py", "        INSERT INTO stage_executions (", "        INSERT OR REPLACE INTO stage_executions (")], "C07.R1")
+case("c07-refactor-reread-then-recheck", "C07", "refactor", [(H + "signal_stage.py", """                buffered = stage.context.get("_buffered_signals", [])
+""", """                stage = self.repository.retrieve_stage(message.stage_id)
+                if stage.status == WorkflowStatus.SUSPENDED:
+                    raise ValueError("stage suspended while buffering the signal; redeliver")
+                buffered = stage.context.get("_buffered_signals", [])
+""")])
+case("c07-snapshot-dict-inline", "C07", "mutant", [(H + "run_task/error.py", """            fresh_stage.context.update(context_update)
+            # Atomic: store stage with context update + push retry message""", """            fresh_stage.context.update({**stage.context, **context_update})
+            # Atomic: store stage with context update + push retry message""")], "C07.R3")
+case("c18-refactor-approve-explicit-flag", "C18", "refactor", [("src/stabilize/hitl.py", """    send_signal(
+        queue,
+        execution_id,
+        stage_id,
+        APPROVE_SIGNAL,
+        data,
+        execution_type=execution_type,
+    )""", """    queue.push(
+        SignalStage(
+            execution_type=execution_type,
+            execution_id=execution_id,
+            stage_id=stage_id,
+            signal_name=APPROVE_SIGNAL,
+            signal_data=data or {},
+            persistent=True,
+        )
+    )""")])
+case("c18-send-signal-default-transient", "C18", "mutant", [("src/stabilize/hitl.py", "    persistent: bool = True,", "    persistent: bool = False,")], "C18.R6")
+case("c05-completetask-stops-at-skipped", "C05", "mutant", [(H + "complete_task.py", "            if message.status == WorkflowStatus.REDIRECT:", "            if message.status in (WorkflowStatus.REDIRECT, WorkflowStatus.SKIPPED):")], "C05.R13")
+case("c05-refactor-redirect-branch-notin", "C05", "refactor", [(H + "complete_task.py", "            if message.status == WorkflowStatus.REDIRECT:", "            if message.status in {WorkflowStatus.REDIRECT}:")])
